@@ -1,21 +1,194 @@
 import Aplang.Prim.Text
-/-! STUB — replaced by the real module -/
+/-!
+# String operations (stand-ins for Rust `str` methods) over `Str = List Char`
+
+Every definition is total, executable, core-only and *structurally* recursive (so that closed examples
+are decidable by kernel evaluation: `by decide`). The scanning functions (`split`, `replace`) use a
+"skip counter" instead of recursing on `s.drop p.length`: after a match at `c :: cs` the remaining
+`p.length - 1` characters of the match are skipped one at a time. `Proofs/StrOpsLaws.lean` proves the
+`drop`-style unfolding equations (`splitGo_zero_cons`, `replaceGo_zero_cons`) and the algebraic laws.
+
+Differentially validated against rustc 1.95 `str::{split, replace, contains, starts_with, ends_with,
+trim, trim_end, lines, to_ascii_uppercase, to_ascii_lowercase, to_lowercase (Σ rule), parse::<bool>}`
+(generator and checker: `/verif/harness_data/strops/{gen.rs,Check.lean}`).
+
+Deviations / parameters (Rust behaviour that is *not* fixed here):
+* White space (`trim*`) and case mapping tables (`toUpper`, `toLower`) are parameters
+  (`isWs`, `CharEnv.upper/lower`); Rust uses the Unicode `White_Space` property and
+  `char::to_uppercase/to_lowercase`.
+* `toLower env s = s.flatMap env.lower` is context-free. Rust's `str::to_lowercase` has exactly one
+  context-sensitive rule (`Σ` U+03A3 ↦ `ς` at the end of a word, else `σ`). `toLowerSigma` implements
+  that rule exactly as `alloc::str::to_lowercase` does; it needs two more Unicode predicates
+  (`Cased`, `Case_Ignorable`) that are not fields of `CharEnv`, so they are explicit parameters.
+  `toLower env s = toLowerSigma env ign cased s` whenever `'Σ' ∉ s`
+  (theorem `toLowerSigma_eq_toLower`).
+-/
 namespace Aplang.StrOps
-def startsWith (s p : Str) : Bool := p.isPrefixOf s
-def endsWith (s p : Str) : Bool := p.isSuffixOf s
-def contains (_s _p : Str) : Bool := false
-def split (s _pat : Str) : List Str := [s]
-def join (parts : List Str) (sep : Str) : Str := sep.intercalate parts
-def replace (s _f _t : Str) : Str := s
-def trim (_isWs : Char → Bool) (s : Str) : Str := s
-def trimEnd (_isWs : Char → Bool) (s : Str) : Str := s
-def lines (s : Str) : List Str := [s]
-def toUpper (env : CharEnv) (s : Str) : Str := s.flatMap env.upper
-def toLower (env : CharEnv) (s : Str) : Str := s.flatMap env.lower
-def toAsciiUpper (s : Str) : Str := s.map Char.toUpper
-def toAsciiLower (s : Str) : Str := s.map Char.toLower
-def parseBool (s : Str) : Option Bool := if s == "true".toList then some true else if s == "false".toList then some false else none
+open Aplang
+
+/-! ## prefix / suffix / infix tests -/
+
+/-- `p` is a prefix of `s` -/
+def isPrefix : (p s : Str) → Bool
+  | [], _ => true
+  | _ :: _, [] => false
+  | a :: p, b :: s => a == b && isPrefix p s
+
+/-- Rust `s.starts_with(p)` (`p : &str`) -/
+def startsWith (s p : Str) : Bool := isPrefix p s
+
+/-- Rust `s.ends_with(p)` -/
+def endsWith (s p : Str) : Bool := isPrefix p.reverse s.reverse
+
+/-- Rust `s.contains(p)`; the empty pattern is contained in every string -/
+def contains : (s p : Str) → Bool
+  | [], p => isPrefix p []
+  | c :: cs, p => isPrefix p (c :: cs) || contains cs p
+
+/-! ## join -/
+
+/-- Rust `parts.join(sep)` -/
+def join : (parts : List Str) → (sep : Str) → Str
+  | [], _ => []
+  | [x], _ => x
+  | x :: y :: r, sep => x ++ sep ++ join (y :: r) sep
+
+/-- `s.chars().map(|c| c.to_string())` -/
 def charsToStrs (s : Str) : List Str := s.map (fun c => [c])
+
+/-! ## split -/
+
+/-- Scanner for a non-empty pattern `p`.
+`splitGo p s k acc`: `k` characters of `s` still belong to the match found last and are skipped;
+`acc` is the current piece, reversed. -/
+def splitGo (p : Str) : (s : Str) → (skip : Nat) → (acc : Str) → List Str
+  | [], _, acc => [acc.reverse]
+  | _ :: cs, k + 1, acc => splitGo p cs k acc
+  | c :: cs, 0, acc =>
+    if isPrefix p (c :: cs) then acc.reverse :: splitGo p cs (p.length - 1) []
+    else splitGo p cs 0 (c :: acc)
+
+/-- Rust `s.split(pat).collect::<Vec<&str>>()` for a `&str` pattern: pieces between the leftmost,
+non-overlapping occurrences of `pat`. For the empty pattern Rust reports a match at every char boundary
+(including both ends): `"ab".split("") = ["", "a", "b", ""]`, `"".split("") = ["", ""]`. -/
+def split (s pat : Str) : List Str :=
+  match pat with
+  | [] => [] :: (charsToStrs s ++ [[]])
+  | _ :: _ => splitGo pat s 0 []
+
+/-! ## replace -/
+
+/-- Scanner for a non-empty pattern `f` (same skip-counter scheme as `splitGo`) -/
+def replaceGo (f t : Str) : (s : Str) → (skip : Nat) → Str
+  | [], _ => []
+  | _ :: cs, k + 1 => replaceGo f t cs k
+  | c :: cs, 0 =>
+    if isPrefix f (c :: cs) then t ++ replaceGo f t cs (f.length - 1)
+    else c :: replaceGo f t cs 0
+
+/-- Rust `s.replace(from, to)` (all leftmost non-overlapping matches). For the empty pattern `to` is
+inserted before every char and at the end: `"ab".replace("", "-") = "-a-b-"`. -/
+def replace (s «from» to : Str) : Str :=
+  match «from» with
+  | [] => to ++ s.flatMap (fun c => c :: to)
+  | _ :: _ => replaceGo «from» to s 0
+
+/-! ## trim -/
+
+/-- Rust `trim_start` (w.r.t. the white-space predicate `isWs`) -/
+def trimStart (isWs : Char → Bool) (s : Str) : Str := s.dropWhile isWs
+
+/-- Rust `trim_end` -/
+def trimEnd (isWs : Char → Bool) (s : Str) : Str := (s.reverse.dropWhile isWs).reverse
+
+/-- Rust `trim` -/
+def trim (isWs : Char → Bool) (s : Str) : Str := trimEnd isWs (trimStart isWs s)
+
+/-! ## lines -/
+
+/-- finish a line that was terminated by `\n`: `acc` is the reversed line content; one `\r` directly
+before the `\n` is removed (Rust: `line.strip_suffix('\n')?.strip_suffix('\r')`) -/
+def finishLine : (acc : Str) → Str
+  | [] => []
+  | c :: r => if c = '\r' then r.reverse else (c :: r).reverse
+
+/-- `linesGo s acc`: `acc` is the current (unterminated) line, reversed -/
+def linesGo : (s acc : Str) → List Str
+  | [], [] => []
+  | [], a :: acc => [(a :: acc).reverse]
+  | c :: cs, acc => if c = '\n' then finishLine acc :: linesGo cs [] else linesGo cs (c :: acc)
+
+/-- Rust `s.lines().collect::<Vec<_>>()` = `split_inclusive('\n')` with the line ending `\n` or `\r\n`
+stripped from each piece. Consequences (checked against rustc): a `\r` is removed only when it is
+directly followed by `\n` (`"a\r".lines() = ["a\r"]`, `"a\r\r\n".lines() = ["a\r"]`); no empty last line
+after a final `\n` (`"a\n".lines() = ["a"]`, `"\n".lines() = [""]`); `"".lines() = []`. -/
+def lines (s : Str) : List Str := linesGo s []
+
+/-! ## case mapping -/
+
+/-- Rust `to_uppercase` with the table `env.upper` (`char::to_uppercase`, 1–3 chars) -/
+def toUpper (env : CharEnv) (s : Str) : Str := s.flatMap env.upper
+
+/-- context-free lower-casing; equals Rust `to_lowercase` on every string without `Σ` (U+03A3) -/
+def toLower (env : CharEnv) (s : Str) : Str := s.flatMap env.lower
+
+/-- `Σ` GREEK CAPITAL LETTER SIGMA -/
+def capSigma : Char := Char.ofNat 0x3A3
+/-- `σ` GREEK SMALL LETTER SIGMA -/
+def smallSigma : Char := Char.ofNat 0x3C3
+/-- `ς` GREEK SMALL LETTER FINAL SIGMA -/
+def finalSigma : Char := Char.ofNat 0x3C2
+
+/-- Rust `case_ignorable_then_cased(iter)`: skip case-ignorable chars; is the next char cased? -/
+def ignThenCased (ign cased : Char → Bool) (s : Str) : Bool :=
+  match s.dropWhile ign with
+  | [] => false
+  | c :: _ => cased c
+
+/-- `toLowerSigmaGo env ign cased before s`: `before` = the chars already consumed, reversed -/
+def toLowerSigmaGo (env : CharEnv) (ign cased : Char → Bool) : (before s : Str) → Str
+  | _, [] => []
+  | before, c :: cs =>
+    (if c = capSigma then
+      [if ignThenCased ign cased before && !ignThenCased ign cased cs then finalSigma else smallSigma]
+     else env.lower c) ++ toLowerSigmaGo env ign cased (c :: before) cs
+
+/-- Rust `str::to_lowercase`, including the `Final_Sigma` rule exactly as implemented in
+`alloc::str::to_lowercase::map_uppercase_sigma`: `Σ` ↦ `ς` iff (going backwards from it, after skipping
+case-ignorable chars, there is a cased char) and not (going forwards, after skipping case-ignorable
+chars, there is a cased char); otherwise `σ`. `ign` = `char::is_case_ignorable`, `cased` = `char::is_cased`. -/
+def toLowerSigma (env : CharEnv) (ign cased : Char → Bool) (s : Str) : Str :=
+  toLowerSigmaGo env ign cased [] s
+
+/-- Rust `to_ascii_uppercase` (`Char.toUpper` only maps `a`–`z`) -/
+def toAsciiUpper (s : Str) : Str := s.map Char.toUpper
+
+/-- Rust `to_ascii_lowercase` (`Char.toLower` only maps `A`–`Z`) -/
+def toAsciiLower (s : Str) : Str := s.map Char.toLower
+
+/-! ## misc -/
+
+/-- Rust `s.parse::<bool>().ok()`: exactly `"true"` / `"false"` -/
+def parseBool (s : Str) : Option Bool :=
+  if s = ['t', 'r', 'u', 'e'] then some true
+  else if s = ['f', 'a', 'l', 's', 'e'] then some false
+  else none
+
+/-- `SUBSTRING(s, start, len)` on chars, `start` is 1-based -/
 def substringChars (s : Str) (start len : Nat) : Str := (s.drop (start - 1)).take len
-def formatBraces (_fmt : Str) (_args : List Str) : Option Str := none
+
+/-- `seg₀ ++ arg₀ ++ seg₁ ++ arg₁ ++ … ++ segₙ`; `none` when the arguments run out -/
+def interleave : (segs args : List Str) → Option Str
+  | [], _ => some []
+  | [seg], _ => some seg
+  | _ :: _ :: _, [] => none
+  | seg :: seg' :: rest, a :: as => (interleave (seg' :: rest) as).map (fun r => seg ++ a ++ r)
+
+/-- `FORMAT`/`DISPLAYF` (`/repo/src/standard_library/io.rs: format`): the segments of
+`fmt.split("{}")` interleaved with the (already displayed) arguments. `none` iff there are fewer
+arguments than `segments − 1` (the Rust code indexes `args[i]` out of bounds there); extra arguments
+are ignored. -/
+def formatBraces (fmt : Str) (args : List Str) : Option Str :=
+  interleave (split fmt ['{', '}']) args
+
 end Aplang.StrOps
